@@ -1,6 +1,6 @@
 import os, sys
 sys.path.insert(0, os.path.join(os.path.dirname(os.path.abspath(__file__)), "..", "lib"))
 from vf import H, C, M
-MODULES = [M("ohkami/src/response/mod.rs", "harness/DEV/send_micro.rs")]
+MODULES = [M("ohkami/src/response/mod.rs", "harness/DEV/send_micro.rs"), M("ohkami/src/response/headers.rs", "harness/DEV/hdr_helper.rs", modname="__verif_devh")]
 CONTRACTS = []
-HARNESSES = [H(n, crate="ohkami", functions=[], clauses=[], timeout=400, expect_covers=False) for n in ["dev_d1_remove_then_drop", "dev_d2_remove_set_drop", "dev_d3_send_none", "dev_d4_send_empty_stream", "dev_d5_send_one_concrete"]]
+HARNESSES = [H(n, crate="ohkami", functions=[], clauses=[], timeout=300, expect_covers=False, unwindset={"write_unchecked_to": 8, "4find&IndexMap": 8, "drop_glue": 8}) for n in ["dev_d6_send_none_empty_headers", "dev_d7_write_only", "dev_d8_send_stream_empty_headers"]]
